@@ -376,6 +376,10 @@ def call_extern(ctx, fr, path, qualname, args, kwargs, node=None, result_ann=Non
     if not vs:
         res = z3.Const(f"{site}!const", V)
     path.note(f"external call {qualname}: result havocked (function of its arguments), no effect on verified state")
+    if result_ann is None:
+        result_ann = ctx.extern_return_ann(qualname)
+        if result_ann is not None:
+            path.note(f"external call {qualname}: result shape assumed as declared in specs/world.py")
     v = Val(res, result_ann, own="fresh")
     if result_ann is not None:
         fct = ann_fact(res, result_ann, ctx.ct)
@@ -386,16 +390,26 @@ def call_extern(ctx, fr, path, qualname, args, kwargs, node=None, result_ann=Non
 
 def dc_replace(ctx, fr, path, obj, changes, node=None):
     classes = possible_classes(ctx, path, obj)
-    if not classes or len(classes) != 1:
+    if not classes:
         raise Unsupported("dataclasses.replace on object of unknown class")
-    ci = classes[0]
-    o = ctx.alloc_obj(path, ci)
-    for n, ann in ci.all_fields().items():
-        if n in changes:
-            ctx.write_field(path, o, n, ctx.toV(changes[n]))
-        else:
-            ctx.write_field(path, o, n, ctx.read_field(path, obj, n, ann))
-    yield path, o
+    cases = [(path, classes[0])]
+    if len(classes) > 1:
+        cases = []
+        cid = V.cls(simp(obj.t))
+        for ci in classes:
+            if ctx.decide(path, cid == ci.cid) is False:
+                continue
+            q = path.fork()
+            q.pc.append(simp(cid == ci.cid))
+            cases.append((q, ci))
+    for q, ci in cases:
+        o = ctx.alloc_obj(q, ci)
+        for n, ann in ci.all_fields().items():
+            if n in changes:
+                ctx.write_field(q, o, n, ctx.toV(changes[n]))
+            else:
+                ctx.write_field(q, o, n, ctx.read_field(q, obj, n, ann))
+        yield q, o
 
 
 def exec_with(ctx, fr, path, st):
@@ -619,7 +633,17 @@ def call_builtin(ctx, fr, path, name, args, kwargs, node=None):
         if ctx.kind(v) == "VObj":
             yield path, Val(V.VCls(simp(V.cls(t))))
             return
-        raise Unsupported("type() of non-object")
+        # type of a builtin value: an opaque class token (negative ids never clash with registered classes)
+        kinds = ["VNone", "VBool", "VInt", "VStr", "VFloat", "VList", "VTuple", "VRec", "VSet", "VDict"]
+        k = ctx.kind(v)
+        if k in kinds:
+            path.note("type(x) of a builtin value: opaque class token")
+            yield path, Val(V.VCls(z3.IntVal(-1 - kinds.index(k))))
+            return
+        f = ctx.func("type_of_builtin", V, smt.IntS)
+        path.note("type(x) of a value of statically unknown kind: class of the object, else an opaque class token")
+        yield path, Val(V.VCls(simp(z3.If(V.is_VObj(t), V.cls(t), f(t)))))
+        return
     if name == "print":
         yield path, ctx.lift(None)
         return
